@@ -321,7 +321,22 @@ def r13_3(ctx):
     an = ctx.an(b)
     key = 'blitter::ImagePadAlphaShader::shade_span'
     # y is clamped on both sides: the y local has defs `0` guarded by y < 0 and `height - 1` guarded by y >= height
-    ydefs = [d for d in an.defs_of.get(3, []) if d.kind == 'assign']
+    # the row variable: whatever is multiplied by the image width in the texel indices (the y parameter re-assigned, or
+    # a shadowing local)
+    ylocals = set()
+    for bi0, d0, ct0 in calls_in(ctx, b):
+        if d0 and d0.endswith('sw_composite::alpha_mul'):
+            for base0, idx0 in dt.elem_reads(ct0[2][0]):
+                if field_path(base0)[1][-1:] == ['data']:
+                    p0 = poly(idx0)
+                    for mono in p0.d:
+                        if any(l[0] == 'field' and l[2] == 'width' for l in mono):
+                            for l in mono:
+                                if l[0] in ('phi', 'param', 'mem'):
+                                    ylocals.add(l[1])
+    if not ylocals:
+        ylocals = {3}
+    ydefs = [d for yl0 in ylocals for d in an.defs_of.get(yl0, []) if d.kind == 'assign']
     lo = hi = False
     for d in ydefs:
         t = an.def_term(d)
@@ -342,7 +357,7 @@ def r13_3(ctx):
                 if nm[-1:] == ['data']:
                     p = poly(idx)
                     wl = [l for l in p.leaves() if l[0] == 'field' and l[2] == 'width']
-                    yl = [l for l in p.leaves() if l[0] in ('phi', 'param') and l[1] == 3]
+                    yl = [l for l in p.leaves() if l[0] in ('phi', 'param', 'mem') and l[1] in ylocals]
                     if len(wl) == 1 and len(yl) == 1:
                         W, Y = Poly.leaf(wl[0]), Poly.leaf(yl[0])
                         if p == W * Y:
